@@ -431,8 +431,74 @@ def r18h(run):
     run.floor("R18h", "try blocks around conversions", total, 8)
 
 
+def r18i(run, rule="R18i"):
+    """a data class is parsed under its own declared options (limits, addition policy, mode) at every nesting level: the
+    context factories hand out `self` - or the caller's options only under the documented override - never a merge and
+    never another object chosen by a further condition"""
+    f = run.repo.func("utype.parser.options", "Options.make_context")
+    fa = analysis(f)
+    ctx_param = next((p for p in f.params if p == "context"), None)
+    ctors = [(n, c) for n, c in fa.all_calls() if unparse(c.func) == "RuntimeContext" and kwarg(c, "options") is not None]
+    run.floor(rule, "RuntimeContext constructions in Options.make_context", len(ctors), 1)
+    for n, c in ctors:
+        ov = kwarg(c, "options")
+        exprs = []
+        if isinstance(ov, ast.Name) and ov.id in fa.rd.locals:
+            for d in fa.rd.defs_of(n, ov.id):
+                if d.kind == "stmt" and isinstance(d.ast, ast.Assign):
+                    exprs.append((d, d.ast.value))
+                else:
+                    exprs.append((d, None))
+        else:
+            exprs.append((n, ov))
+        for d, e in exprs:
+            txt = unparse(e) if e is not None else "?"
+            if txt == "self":
+                ok, why = True, "the declared options"
+            elif ctx_param and txt == f"{ctx_param}.options":
+                facts = {(unparse(a), bool(p)) for a, p in fa.facts.atoms_at(d)}
+                ok = (f"{ctx_param}.options.override", True) in facts and (
+                    ("self.override", False) in facts or ("not self.override", True) in facts)
+                extra = {t for t, p in facts} - {f"{ctx_param}.options.override", "self.override", "not self.override", ctx_param}
+                ok = ok and not extra
+                why = "the caller's options under override" if ok else f"the caller's options under {sorted(facts)}"
+            else:
+                ok, why = False, f"`{txt}`"
+            run.check(rule, f, f"the context of a (nested) parse carries {why}", ok,
+                      construct=f"make_context hands out {txt[:50]}",
+                      message=f"Options.make_context: the new context's options can be `{txt}` "
+                              f"({why}): neither the options the class declares nor the caller's under override",
+                      necessity="a nested class is parsed with its parent's limits / addition policy / mode (or loses its "
+                                "own max_depth): the depth limit, min/max properties and the published schema no longer "
+                                "describe what the parser enforces", node=d.ast if d.ast is not None else c)
+    # the parsers' factories delegate to their own options
+    n_fact = 0
+    for modname in ("utype.parser.base", "utype.parser.cls", "utype.parser.func"):
+        for C in run.repo.module(modname).classes.values():
+            g = C.methods.get("make_context")
+            if g is None:
+                continue
+            ga = analysis(g)
+            for n, c in ga.all_calls():
+                if call_attr(c) != "make_context":
+                    continue
+                n_fact += 1
+                recv = c.func.value
+                srcs = [unparse(recv)]
+                if isinstance(recv, ast.Name) and recv.id in ga.rd.locals:
+                    srcs = [unparse(d.ast.value) if d.kind == "stmt" and isinstance(d.ast, ast.Assign) else "?"
+                            for d in ga.rd.defs_of(n, recv.id)]
+                bad = [t for t in srcs if t != "self.options"]
+                run.check(rule, g, f"{C.name}.make_context builds the context from the parser's own options", not bad,
+                          construct=f"{C.name}.make_context uses {', '.join(bad)[:50]}",
+                          message=f"{g.qualname}: the context is built from {bad} instead of self.options",
+                          necessity="nested instances inherit options of the enclosing parse and lose their own max_depth",
+                          node=c)
+    run.floor(rule, "parser context factories", n_fact, 2)
+
+
 def check(run):
-    run.rules_run += ["R18a", "R18b", "R18c", "R18d", "R18e", "R18f", "R18g", "R18h"]
+    run.rules_run += ["R18a", "R18b", "R18c", "R18d", "R18e", "R18f", "R18g", "R18h", "R18i"]
     run.explain("C18: (R18a) the route parameter of RuntimeContext is tested None-exactly, depth is inherited, "
                 "incremented by one on the no-route branch only and compared with `>`; (R18b) every context.enter site "
                 "passes a non-None route and enter() chains context/route/options; (R18c) data-class contexts are "
@@ -448,3 +514,4 @@ def check(run):
     r18f(run)
     r18g(run)
     r18h(run)
+    r18i(run)
